@@ -1467,7 +1467,8 @@ class AnsiString:
             if count > 0:
                 count -= 1
             # An empty old string matches before every character: skip one so that the search advances (like str)
-            idx = obj._s.find(old, idx + len(new) + (0 if old else 1))
+            # Continue behind the inserted text (shorter than new when new was a str containing ANSI directives)
+            idx = obj._s.find(old, idx + len(replace) + (0 if old else 1))
 
         if inplace:
             self._s = obj._s
